@@ -161,6 +161,10 @@ def np_call(interp, name, args, kwargs, fr):
         return NdV(a.shape, lambda idx: a.fn((zint(n) - 1 - zint(idx[0]),) + tuple(idx[1:])), a.dtype)
     if name == "zeros":
         n = args[0]
+        if isinstance(n, tuple) and len(n) == 1:
+            n = n[0]                  # np.zeros((n,)): a 1-D array
+        if isinstance(n, (tuple, ListV)):
+            raise Unsupported("np.zeros with a multi-dimensional shape")
         return NdV((zmax(n, 0) if is_z3(n) else max(n, 0),), lambda idx: z3.IntVal(0), kwargs.get("dtype"))
     if name == "concatenate":
         T.add("numpy: concatenate([a, b]) has length len(a)+len(b), items of a then items of b")
